@@ -750,8 +750,8 @@ func Run11(t *testing.T, pl any) *simcore.Result {
 }
 
 func run11(p *Plan11, res *simcore.Result) (*simcore.Violation, simcore.Hash64, uint64, int) {
-	lg := simcore.NewHash()
 	rs := buildRef(p)
+	lg := simcore.NewHash().Bytes(rs.root[:]).String(p.Scheme)
 	kv := simdisk.NewSimKV(nil)
 	// plant the flat state
 	{
@@ -807,13 +807,14 @@ func run11(p *Plan11, res *simcore.Result) (*simcore.Violation, simcore.Hash64, 
 	choices := 0
 	start := time.Now()
 	var prog atomic.Uint64
+	var genDone atomic.Bool
 	if p.Gated {
 		s := simsched.New(p.Tape, simsched.ModeWait)
 		db.s = s
 		step := 0
 		s.OnStep = func() error {
 			step++
-			if p.CancelAt > 0 && step == p.CancelAt && !cancelled {
+			if p.CancelAt > 0 && step == p.CancelAt && !cancelled && !genDone.Load() {
 				cancelled = true
 				close(cancel)
 			}
@@ -827,6 +828,7 @@ func run11(p *Plan11, res *simcore.Result) (*simcore.Violation, simcore.Hash64, 
 		s.Go("gen", func() {
 			db.register("main")
 			out.stats, out.err = triedb.GenerateTrieWithProgress(db, p.Scheme, target, cancel, &prog)
+			genDone.Store(true)
 		})
 		s.Run()
 		if s.Err != nil {
